@@ -790,8 +790,88 @@ def thread_function(c, max_region=40):
     return n
 
 
+def _rekey(data, old, new):
+    """rename function `old` to `new` everywhere in the facts (definitions, closures, callees, function items, impls)"""
+    pre_o, pre_n = old + "::{closure#", new + "::{closure#"
+
+    def rk(k):
+        if k == old:
+            return new
+        if isinstance(k, str) and k.startswith(pre_o):
+            return pre_n + k[len(pre_o):]
+        return k
+
+    def walk(o):
+        if isinstance(o, dict):
+            for kk in ("key", "parent", "resolved", "fn", "closure", "item"):
+                if kk in o and isinstance(o[kk], str):
+                    o[kk] = rk(o[kk])
+            for v in o.values():
+                walk(v)
+        elif isinstance(o, list):
+            for v in o:
+                walk(v)
+    walk(data["functions"])
+    walk(data.get("impls", []))
+
+
+def match_renames(data, known_keys):
+    """A14: a known private function that disappeared while exactly one new private function with the same home (module /
+    impl), the same parameter and return types appeared is that function under a new name: the facts are re-keyed to the
+    known name, so the rules keep their anchor.  Anything ambiguous is left alone (the anchor then fails closed)."""
+    present = {d["key"] for d in data["functions"]}
+    by_key = {d["key"]: d for d in data["functions"]}
+    new = [d for d in data["functions"] if d["kind"] in ("fn", "assoc") and d["key"] not in known_keys and not d["derived"] and not d.get("exp")
+           and d["vis"] != "pub" and not d.get("impl_trait") and not d.get("in_trait")]
+    if not new:
+        return {}
+    sigs = known_signatures()
+    missing = [k for k in known_keys if k not in present and k in sigs and k not in ALWAYS_INLINE]
+    out = {}
+    for k in missing:
+        home = k.rsplit("::", 1)[0]
+        cands = [d for d in new if d["key"].rsplit("::", 1)[0] == home and
+                 [l["s"] for l in d["locals"][:d["arg_count"] + 1]] == sigs[k]]
+        others = [k2 for k2 in missing if k2 != k and k2.rsplit("::", 1)[0] == home and sigs[k2] == sigs[k]]
+        if len(cands) == 1 and not others:
+            out[k] = cands[0]["key"]
+            continue
+        # moved to another module / impl block under the same name
+        name = k.rsplit("::", 1)[-1]
+        cands = [d for d in new if d["key"].rsplit("::", 1)[-1] == name and [l["s"] for l in d["locals"][:d["arg_count"] + 1]] == sigs[k]]
+        others = [k2 for k2 in missing if k2 != k and k2.rsplit("::", 1)[-1] == name and sigs[k2] == sigs[k]]
+        if len(cands) == 1 and not others:
+            out[k] = cands[0]["key"]
+    used = set()
+    for k, n in list(out.items()):
+        if n in used:
+            out.pop(k)
+        used.add(n)
+    for k, n in out.items():
+        _rekey(data, n, k)
+    return out
+
+
+_SIGS = None
+
+
+def known_signatures():
+    """{function key: [return type, parameter types..]} recorded with the rule tables (tools/freeze_params.py)"""
+    global _SIGS
+    if _SIGS is None:
+        import json
+        import os
+        p = os.path.join(os.path.dirname(os.path.abspath(__file__)), "known_sigs.json")
+        _SIGS = {}
+        if os.path.exists(p):
+            with open(p) as fh:
+                _SIGS = json.load(fh)
+    return _SIGS
+
+
 def normalise(data, known_keys):
     """splice new private helpers of data['functions'] into their callers; returns a report dict"""
+    renamed = match_renames(data, known_keys)
     inl = Inliner(data["functions"], known_keys)
     removed = inl.run()
     hofs = Desugarer(inl).run()
@@ -810,4 +890,4 @@ def normalise(data, known_keys):
     rep = {}
     for h, c, line in inl.report:
         rep.setdefault(h, []).append("%s:%d" % (c, line))
-    return {"spliced": rep, "removed": removed, "loops": ["%s in %s:%d" % h for h in hofs], "threaded": threaded}
+    return {"spliced": rep, "removed": removed, "loops": ["%s in %s:%d" % h for h in hofs], "threaded": threaded, "renamed": renamed}
